@@ -25,3 +25,16 @@
         &&& self.function_calls == o.function_calls &&& self.bus_listeners == o.bus_listeners
     }
 
+    // some connected client has the numeric id `i`
+    spec fn connected_id(&self, i: int) -> bool {
+        exists|k: ConnectionId| #![trigger k.id()] self.conns@.contains_key(k) && k.id() == i
+    }
+
+    // (strong form of the channel / listener invariants, between two requests) claimed channel ends and bus listeners belong
+    // to connected clients
+    spec fn chan_owners_connected(&self) -> bool {
+        forall|c: ChannelCookie| #![trigger self.channels@[c]] self.channels@.contains_key(c) ==> {
+            &&& (self.channels@[c].sender is Claimed ==> self.connected_id(self.channels@[c].sender.owner_id()))
+            &&& (self.channels@[c].receiver is Claimed ==> self.connected_id(self.channels@[c].receiver.owner_id()))
+        }
+    }
